@@ -1,6 +1,6 @@
 //! TCP scenarios: one local connection through one entry point, scripted on both ends.
 
-use crate::io::{diff, payload, run_side, step, BoxStream, Chunk, Role, Script, SideObs};
+use crate::io::{diff, payload, prompt, run_side, step, BoxStream, Chunk, Gate, Role, Script, SideObs};
 use crate::world::{TargetJob, World};
 use std::sync::Arc;
 use std::sync::atomic::Ordering;
@@ -69,11 +69,28 @@ pub enum Mode {
     ClientDrops,
     /// nothing listens on the target port
     Refuse,
+    /// client sends `up` and half-closes; target reads to end-of-stream, then sends `down` one
+    /// message (= one chunk of `downc`) at a time and KEEPS THE CONNECTION OPEN: each message must be
+    /// complete at the client within `prompt()` before the next is written; after the last one
+    /// the target pauses `slow`, closes, and the client must see end-of-stream (not earlier)
+    ClientFirstHold,
+    /// the mirror image: target sends `down` and half-closes; client reads to end-of-stream, then
+    /// sends `up` message by message (`upc`), each awaited at the target, pauses, closes
+    TargetFirstHold,
 }
 
+/// the close orders of the entry x mode matrix of the fixed pass
 pub const MODES: [Mode; 8] = [
     Mode::Echo, Mode::ClientFirst, Mode::TargetFirst, Mode::Duplex, Mode::TargetCloses, Mode::TargetDrops,
     Mode::ClientDrops, Mode::Refuse,
+];
+
+/// dialogues after a half-close (their own matrix in the fixed pass)
+pub const HOLD_MODES: [Mode; 2] = [Mode::ClientFirstHold, Mode::TargetFirstHold];
+
+pub const ALL_MODES: [Mode; 10] = [
+    Mode::Echo, Mode::ClientFirst, Mode::TargetFirst, Mode::Duplex, Mode::TargetCloses, Mode::TargetDrops,
+    Mode::ClientDrops, Mode::Refuse, Mode::ClientFirstHold, Mode::TargetFirstHold,
 ];
 
 impl Mode {
@@ -87,10 +104,15 @@ impl Mode {
             Mode::TargetDrops => "target-sends-and-closes",
             Mode::ClientDrops => "client-sends-and-closes",
             Mode::Refuse => "refused",
+            Mode::ClientFirstHold => "client-half-closes-target-holds",
+            Mode::TargetFirstHold => "target-half-closes-client-holds",
         }
     }
     pub fn parse(s: &str) -> Option<Self> {
-        MODES.iter().copied().find(|e| e.text() == s)
+        ALL_MODES.iter().copied().find(|e| e.text() == s)
+    }
+    pub fn is_hold(self) -> bool {
+        HOLD_MODES.contains(&self)
     }
 }
 
@@ -102,7 +124,8 @@ pub struct TcpScn {
     pub down: usize,
     pub upc: Chunk,
     pub downc: Chunk,
-    /// the receiver of the larger payload starts reading this late
+    /// the receiver of the larger payload starts reading this late; in the hold modes: the pause of
+    /// the side that keeps the connection open before each of its messages and before its close
     pub slow_ms: u64,
     pub seed: u64,
 }
@@ -147,10 +170,19 @@ impl TcpScn {
         let up = self.up_bytes();
         let down = self.down_bytes();
         let (cslow, tslow) = if self.up >= self.down { (0, self.slow_ms) } else { (self.slow_ms, 0) };
-        let c = |role| Script { role, send: up.clone(), chunk: self.upc.clone(), read_delay_ms: cslow };
-        let t = |role| Script { role, send: down.clone(), chunk: self.downc.clone(), read_delay_ms: tslow };
+        let c = |role| Script { role, send: up.clone(), chunk: self.upc.clone(), read_delay_ms: cslow, gate: None };
+        let t = |role| Script { role, send: down.clone(), chunk: self.downc.clone(), read_delay_ms: tslow, gate: None };
         let n = |after, sd| Role::Normal { after_peer_eof: after, shutdown: sd };
+        let gate = Some(Arc::new(Gate::new()));
         match self.mode {
+            Mode::ClientFirstHold => (
+                Script { read_delay_ms: 0, gate: gate.clone(), ..c(n(false, true)) },
+                Script { read_delay_ms: self.slow_ms, gate, ..t(Role::Hold) },
+            ),
+            Mode::TargetFirstHold => (
+                Script { read_delay_ms: self.slow_ms, gate: gate.clone(), ..c(Role::Hold) },
+                Script { read_delay_ms: 0, gate, ..t(n(false, true)) },
+            ),
             Mode::Echo => (c(n(false, true)), Script { send: vec![], ..t(Role::Echo) }),
             Mode::ClientFirst => (c(n(false, true)), t(n(true, true))),
             Mode::TargetFirst => (c(n(true, true)), t(n(false, true))),
@@ -412,6 +444,13 @@ pub fn check_conn(sc: &TcpScn, o: &ConnObs) -> Vec<(String, String)> {
         );
         return bad;
     };
+    if sc.mode.is_hold() {
+        return if sc.mode == Mode::ClientFirstHold {
+            check_hold(&o.client, t, "client", "target", &up, &down)
+        } else {
+            check_hold(t, &o.client, "target", "client", &down, &up)
+        };
+    }
     // what each side must have received
     let (want_at_target, target_reads_all): (&[u8], bool) = match sc.mode {
         Mode::TargetDrops => (&[], false),
@@ -469,6 +508,99 @@ pub fn check_conn(sc: &TcpScn, o: &ConnObs) -> Vec<(String, String)> {
             }
         }
         _ => {}
+    }
+    bad
+}
+
+/// The hold modes. `first` = the end that sends `first_sent` and half-closes first, `holder` = the
+/// end that then sends `holder_sent` message by message and keeps the connection open. On a direct
+/// connection: the holder reads `first_sent` and end-of-stream; every message of the holder is at
+/// `first` at once, while the holder does nothing but wait; `first` reads end-of-stream after the
+/// holder has closed, not before.
+fn check_hold(first: &SideObs, holder: &SideObs, first_name: &str, holder_name: &str, first_sent: &[u8], holder_sent: &[u8]) -> Vec<(String, String)> {
+    let mut bad: Vec<(String, String)> = vec![];
+    let how = |s: &SideObs| match (&s.hang, &s.read_err) {
+        (Some(h), _) => format!("left hanging: {h}"),
+        (_, Some(e)) => format!("read error instead: {e}"),
+        _ => "no end-of-stream".to_string(),
+    };
+    if holder.received != first_sent {
+        let k = if first_sent.starts_with(&holder.received) { "incomplete" } else { "corrupt" };
+        bad.push((
+            format!("{first_name}-to-{holder_name}-{k}"),
+            format!("{first_name} -> {holder_name}: {}{}", diff(&holder.received, first_sent), holder.hang.as_ref().map(|h| format!("; {holder_name}: HANG {h}")).unwrap_or_default()),
+        ));
+        return bad;
+    }
+    if !holder.saw_eof {
+        bad.push((
+            format!("{holder_name}-no-eof"),
+            format!("the {first_name} finished its sending direction, the {holder_name} got all data but no end-of-stream ({})", how(holder)),
+        ));
+        return bad;
+    }
+    if let Some(u) = &holder.unconfirmed {
+        let end = u.offset + u.len;
+        let tail = format!(
+            "in the end (after the {holder_name} had given up and closed) the {first_name} had {} of the {} bytes written, end-of-stream={}",
+            first.received.len(), holder.sent, first.saw_eof
+        );
+        if u.peer_ended && first.saw_eof {
+            bad.push((
+                "eof-before-peer-closed".into(),
+                format!(
+                    "after the {first_name}'s half-close the {holder_name} wrote message {} ({} bytes) and kept the connection open; the {first_name} read end-of-stream after {} of {end} bytes although the {holder_name} had not closed; {tail}",
+                    u.msg, u.len, u.peer_had
+                ),
+            ));
+        } else if u.peer_ended {
+            bad.push((
+                "reverse-direction-broken-after-half-close".into(),
+                format!(
+                    "after the {first_name}'s half-close the {holder_name} wrote message {} ({} bytes) and kept the connection open; the {first_name}'s reading ended after {} of {end} bytes ({}); {tail}",
+                    u.msg, u.len, u.peer_had, how(first)
+                ),
+            ));
+        } else {
+            bad.push((
+                "withheld-after-half-close".into(),
+                format!(
+                    "after the {first_name}'s half-close the {holder_name} wrote message {} ({} bytes at offset {} of its direction) and kept the connection open and idle; {} ms later (bound {} ms) the {first_name} had received {} of the {end} bytes written so far (a direct connection delivers them at once); {tail}",
+                    u.msg, u.len, u.offset, u.waited_ms, prompt().as_millis(), u.peer_had
+                ),
+            ));
+        }
+        return bad;
+    }
+    if holder.sent != holder_sent.len() || holder.write_err.is_some() || holder.hang.is_some() {
+        bad.push((
+            "reverse-direction-broken-after-half-close".into(),
+            format!("after the {first_name}'s half-close the {holder_name} could write only {} of {} bytes ({:?} {:?})", holder.sent, holder_sent.len(), holder.write_err, holder.hang),
+        ));
+        return bad;
+    }
+    if first.received != holder_sent {
+        let k = if holder_sent.starts_with(&first.received) { "incomplete" } else { "corrupt" };
+        bad.push((
+            format!("{holder_name}-to-{first_name}-{k}"),
+            format!("{holder_name} -> {first_name}: {}{}", diff(&first.received, holder_sent), first.hang.as_ref().map(|h| format!("; {first_name}: HANG {h}")).unwrap_or_default()),
+        ));
+        return bad;
+    }
+    if !first.saw_eof {
+        bad.push((
+            format!("{first_name}-no-eof"),
+            format!("the {holder_name} closed, the {first_name} got all data but no end-of-stream ({})", how(first)),
+        ));
+        return bad;
+    }
+    if let (Some(eof), Some(closed)) = (first.eof_at, holder.closed_at) {
+        if eof < closed {
+            bad.push((
+                "eof-before-peer-closed".into(),
+                format!("the {first_name} read end-of-stream {} ms before the {holder_name} closed its sending direction", (closed - eof).as_millis()),
+            ));
+        }
     }
     bad
 }
